@@ -14,6 +14,12 @@ claim("C04",
  "symbolic execution of go/ssa with schedules as decisions (delay-bounded cooperative scheduler) + SMT for the pointwise coverage formula",
  "DESIGN.md 6/C04")
 
+claim("C17",
+ "Inductive step, decided by the solver, over the real peer-pool code: from ANY pool state over 3 peers satisfying the representation invariant (symbolic statuses, any list order, symbolic cursor) each operation preserves the invariant, hands out only active peers, never offers a peer on cool-down and keeps the has-peer signal equal to activeCount>0 - so histories of any length do. Plus bounded schedule exploration of the real pool, timed queue and timer callback (2-3 threads, up to 2 scheduling deviations): no deadlock, waiters in next() are woken by add / cool-down expiry and honour cancellation. The AB/BA lock order between pool and queue needs a timer firing between two lock acquisitions - a schedule tests do not force.",
+ "symbolic execution of go/ssa: inductive invariant step with SMT, and schedules as decisions (delay-bounded) with deadlock detection",
+ "DESIGN.md 6/C17",
+ "Not covered: Manager (validation of announced hashes, blacklisting) and libp2p events.")
+
 claim("C13",
  "Bounded model checking of the real coordinator/worker code at quiescence: every started job has reported, catch-up-done holds exactly when nothing is queued, in flight or failed (including right after resume), every height is sampled or recorded failed, statistics agree with the ghost record of sampled heights, worker counts respect limit / 2x limit, and the back-off attempt count increases by one with a delay that saturates at the last interval for every attempt count 0..8 and every instant.",
  "symbolic execution of go/ssa with schedules as decisions + SMT; unbounded liveness replaced by bounded quiescence statements",
